@@ -93,8 +93,11 @@ def build_variant(variant):
     # the scheduler is never instrumented (DESIGN 2.2)
     jobs.append(("sched.o", [comp] + COMMON + ["-O2", "-c", os.path.join(SIM, "sched.cpp"), "-o", os.path.join(d, "sched.o")]))
     if variant == "tsan":
-        # also uninstrumented: schedule points at every 8-bit atomic access (see sim/atomwrap.cpp)
+        # also uninstrumented: schedule points at every 8-/32-bit atomic access (see sim/atomwrap.cpp)
         jobs.append(("atomwrap.o", [comp] + COMMON + ["-O2", "-c", os.path.join(SIM, "atomwrap.cpp"), "-o", os.path.join(d, "atomwrap.o")]))
+    if "e1" in engines:
+        # also uninstrumented: mutex / call_once / static-guard waits become yields (see sim/blockwrap.cpp)
+        jobs.append(("blockwrap.o", [comp] + COMMON + ["-O2", "-c", os.path.join(SIM, "blockwrap.cpp"), "-o", os.path.join(d, "blockwrap.o")]))
     for e in engines:
         jobs.append((e + ".o", [comp] + COMMON + flags + inc + ["-c", os.path.join(SIM, ENGINE_SRC[e]), "-o", os.path.join(d, e + ".o")]))
 
@@ -112,11 +115,14 @@ def build_variant(variant):
         wrap = []
         if e == "e1":
             objs.append(os.path.join(d, "sched.o"))
+            objs.append(os.path.join(d, "blockwrap.o"))
+            wrap = ["-Wl," + ",".join("--wrap=" + f for f in ("pthread_once", "pthread_mutex_lock", "pthread_mutex_trylock",
+                                                              "__cxa_guard_acquire", "__cxa_guard_release", "__cxa_guard_abort"))]
             if variant == "tsan":
                 objs.append(os.path.join(d, "atomwrap.o"))
-                wrap = ["-Wl," + ",".join("--wrap=__tsan_atomic8_" + f for f in
-                                         ("load", "store", "exchange", "compare_exchange_strong", "compare_exchange_weak"))]
-        r = sh([comp] + lflags + wrap + objs + ["-o", os.path.join(d, e)])
+                wrap += ["-Wl," + ",".join(f"--wrap=__tsan_atomic{w}_" + f for w in (8, 32) for f in
+                                          ("load", "store", "exchange", "compare_exchange_strong", "compare_exchange_weak"))]
+        r = sh([comp] + lflags + objs + wrap + ["-o", os.path.join(d, e)])
         if r.returncode != 0:
             raise RuntimeError(f"link of {e} ({variant}) failed:\n{r.stdout[-4000:]}")
     for f in glob.glob(os.path.join(d, "*.o")):
@@ -502,6 +508,12 @@ def handle_violations(prop, viols, crashes, builds, known, outdir):
     for c in crashes:
         if c.get("run") is None:
             log(f"HARNESS-FAULT worker of {c['binary']} failed outside a run (rc={c['rc']}):\n{c['err'][-1500:]}")
+            rc = max(rc, 2)
+            continue
+        if c["rc"] == 3 or "HANG-UNSIMULATED" in (c.get("detail") or ""):
+            # a simulated thread blocked in a primitive the scheduler does not control while another thread held the
+            # baton: a limitation of the harness, never evidence about the property (DESIGN 2.2)
+            log(f"HARNESS-FAULT {prop}: run {c['run']} of {os.path.basename(c['binary'])} {' '.join(c['args'])} blocked outside the simulator's control (HANG-UNSIMULATED)")
             rc = max(rc, 2)
             continue
         # reconstruct the plan of the crashed run
